@@ -267,7 +267,8 @@ class Model(object):
         return self.ar[s]
 
     def arr_total(self, a):
-        return sum(a["vals"][:a["n"]]) + 1000 * (len(a["name"]) if a["name"] is not None else 77)
+        vals = a["vals"] if a["vals"] is not None else []
+        return sum(vals[:a["n"]]) + 1000 * (len(a["name"]) if a["name"] is not None else 77)
 
     def op_ar_new(self, s, n, _t):
         self.py_only()
@@ -285,6 +286,40 @@ class Model(object):
         a = self.arr_struct(s)
         a["name"] = text
         return self.expect(())
+
+    def op_ar_bad_name(self, s, _b, _t):
+        # a failed assignment (wrong type) leaves the member NULL; whatever was there is released once
+        a = self.arr_struct(s)
+        a["name"] = None
+        self.hit("struct_member_assignment_failed")
+        return self.expect(None)
+
+    def op_ar_bad_vals(self, s, _b, _t):
+        a = self.arr_struct(s)
+        a["vals"] = None
+        self.hit("struct_member_assignment_failed")
+        return self.expect(None)
+
+    def op_char_arr_two(self, n, ln, _t):
+        self.py_only()
+        def tot(k):
+            return sum(((i - 1) % (ln + 1)) + 100 for i in range(1, k + 1))
+        return self.expect((tot(n) * 3 + tot(max(0, n - 1)),))
+
+    def op_bad_char_arr_two(self, _a, _b, _t):
+        # the first list converts, the second has a wrongly typed item in the middle
+        self.py_only()
+        return self.expect(None)
+
+    def op_arr_in_out(self, nin, n, _t):
+        self.py_only()
+        s = sum(range(1, nin + 1))
+        return self.expect((n, int(sum(s + 0.5 * i for i in range(n)) * 2)))
+
+    def op_bad_arr_in_out(self, _a, _b, _t):
+        # the input array converts, the allocation of the output array fails
+        self.py_only()
+        return self.expect(None)
 
     def op_ar_total(self, s, _b, _t):
         return self.expect((self.arr_total(self.arr_struct(s)),))
@@ -848,8 +883,16 @@ def gen_op(rng, model, enabled, uniq):
         return [name, s, rng.choice([0, 1, 2, 5, 16, 40])]
     if name == "ar_set_name":
         return [name, s, 0, rng.choice([t for t in TEXTS if t])]
-    if name in ("ar_total", "ar_get_vals", "ar_get_name", "ar_drop"):
+    if name in ("ar_total", "ar_get_vals", "ar_get_name", "ar_drop", "ar_bad_name"):
         return [name, s]
+    if name == "ar_bad_vals":
+        return [name, s, rng.randrange(12)]
+    if name in ("char_arr_two", "bad_char_arr_two"):
+        return [name, rng.choice([1, 2, 3, 6]), rng.choice([1, 2, 4, 9])]
+    if name == "arr_in_out":
+        return [name, rng.choice([0, 1, 5, 16]), rng.choice([0, 1, 2, 7])]
+    if name == "bad_arr_in_out":
+        return [name, rng.choice([1, 5, 16, 40])]
     if name == "ar_tmp":
         return [name, rng.choice([0, 1, 2, 5, 16, 40])]
     if name == "bad_char_arr":
@@ -892,9 +935,10 @@ LEAKABLE = ["item_value", "item_label", "use_item", "sum_items", "item_combine",
             "arr_lib", "arr_sum", "arr_fill_out", "char_arr", "bad_vec_sum", "bad_arg", "bad_arr_sum",
             "hi_get", "hd_get", "arr_weights", "bad_arr_weights", "char_arr_none", "bad_char_arr",
             "pt_sum", "pt_out", "pt_scale", "pt_tmp", "ar_tmp", "ar_total", "ar_get_vals", "ar_get_name", "ar_set_vals",
-            "ar_set_name"]
+            "ar_set_name", "ar_bad_name", "ar_bad_vals", "char_arr_two", "bad_char_arr_two", "arr_in_out", "bad_arr_in_out"]
 PY_ONLY = ["box_delete", "bad_vec_sum", "bad_arg", "nomem", "bad_arr_sum", "bad_arr_weights", "char_arr_none", "bad_char_arr",
-           "ar_new", "ar_set_vals", "ar_set_name", "ar_total", "ar_get_vals", "ar_get_name", "ar_drop", "ar_tmp", "pt_tmp"] + ["leak_" + n for n in LEAKABLE]
+           "ar_new", "ar_set_vals", "ar_set_name", "ar_total", "ar_get_vals", "ar_get_name", "ar_drop", "ar_tmp", "pt_tmp",
+           "ar_bad_name", "ar_bad_vals", "char_arr_two", "bad_char_arr_two", "arr_in_out", "bad_arr_in_out"] + ["leak_" + n for n in LEAKABLE]
 # char_inout: the Python wrapper hands the str object's own UTF-8 buffer to the library, which
 # upper-cases it in place and thereby corrupts interned strings of the interpreter (a C03 defect;
 # it would make later *values* wrong, so the op is not generated for Python)
@@ -938,7 +982,10 @@ OP_NEEDS = {
 for _n in ("item_default", "item_val", "item_delete", "item_value", "item_set", "item_label", "item_twin", "assign",
            "item_release", "item_combine"):
     OP_NEEDS[_n] = _ITEM
-for _n in ("ar_new", "ar_set_vals", "ar_set_name", "ar_total", "ar_get_vals", "ar_get_name", "ar_drop", "ar_tmp"):
+OP_NEEDS["char_arr_two"] = OP_NEEDS["bad_char_arr_two"] = ("charArrTwo",)
+OP_NEEDS["arr_in_out"] = OP_NEEDS["bad_arr_in_out"] = ("arrInOut",)
+for _n in ("ar_new", "ar_set_vals", "ar_set_name", "ar_total", "ar_get_vals", "ar_get_name", "ar_drop", "ar_tmp",
+           "ar_bad_name", "ar_bad_vals"):
     OP_NEEDS[_n] = ("Arr", "arrTotal")
 for _n in ("new", "get", "put", "delete", "release"):
     OP_NEEDS["hi_" + _n] = OP_NEEDS["hd_" + _n] = ("Holder",)
@@ -993,7 +1040,9 @@ def targeted_op(rng, m, enabled, uniq):
     for s, a in enumerate(m.ar):
         if a is not None:
             cands += [["ar_set_vals", s, rng.choice([0, 1, 5, 16])], ["ar_total", s], ["ar_get_vals", s],
-                      ["ar_set_name", s, 0, rng.choice(["a", "hello", "two words"])], ["ar_drop", s], ["ar_get_name", s]]
+                      ["ar_set_name", s, 0, rng.choice(["a", "hello", "two words"])], ["ar_drop", s], ["ar_get_name", s],
+                      ["ar_bad_name", s], ["ar_bad_vals", s, rng.randrange(12)],
+                      ["ar_set_name", s, 0, rng.choice(["a", "hello", "two words"])]]
     for c, hid in enumerate(m.caps):
         if hid is not None:
             cands += [["cap_delete", c], ["cap_delete", c], ["arr_new", lengths(rng), c], ["arr_pat", lengths(rng), c]]
